@@ -127,6 +127,16 @@ func (o Op) String() string {
 			v = o.Val.ServiceJSON()
 		}
 		return fmt.Sprintf("svc %s %s%s %s key=%s idx=%d %s", o.K, o.S, q, o.O, o.Key, o.N, v)
+	case "mutm":
+		var ps []string
+		for _, p := range o.Par {
+			v := ""
+			if p.Val != nil {
+				v = p.Val.ServiceJSON()
+			}
+			ps = append(ps, p.Key+"="+v)
+		}
+		return fmt.Sprintf("svc mutm %s set %s", o.S, strings.Join(ps, " "))
 	case "custom", "delete", "reaccess", "qevent":
 		return fmt.Sprintf("svc %s %s %s", o.K, o.S, o.M)
 	case "rawev":
